@@ -11,6 +11,9 @@ CLAIMED = {
  "C13": dict(
    text="every row of the tool's real command table x arities 1..5 (thorough 1..8) x black/white lists: each argument and prefix is a symbolic byte, so every combination of passing/non-passing keys is a solver-decided path; the rewritten argv is compared with the Redis key-position specification",
    note=NOTE_COMMON + "one-byte arguments and prefixes; Redis' (first,last,step) table is hard-coded on the specification side"),
+ "C10": dict(
+   text="18 value-tree skeletons (depth <= 3, payloads <= 3 symbolic bytes, small symbolic integers, nil vs empty) encoded with the real encoder, embedded in a stream with keep-alive newlines and a following value, decoded with the real decoder over real bufio: equality, exact byte position and intact remainder asserted for all payload values; integers across the imap boundaries; inline commands; corruption families (CR, LF, non-numeric and negative lengths, unknown type in array, every truncation point) must yield an error; ParseArgs/ChangeArgsToResp round trip",
+   note=NOTE_COMMON + "shapes are enumerated concretely, contents are symbolic; text lines exclude LF; integers restricted to the listed ranges and edge values"),
  "C11": dict(
    text="one-step lemmas over the real SSA of both in-repo CRC-64 implementations from an arbitrary 64-bit state (table step = bitwise Jones step; step injective in state and byte; chunking independence; Sum/Reset layout) plus the real payload checkers (utils.CheckVersionChecksum, cupcake verifyDump) on symbolic payloads whose trailer is built with the tool's own digest: accept intact, reject altered checksum byte, unsupported version, short input",
    note=NOTE_COMMON + "stream-length induction from the one-step lemmas is on paper; altered data bytes in a checked payload rest on step injectivity (three chained table steps time out in every back end); payload bodies <= 2 bytes"),
